@@ -111,6 +111,18 @@ CHECKS = {
              'Inverse compared within 1e-9. astropy WCS objects are outside the quantifier.',
         technique='TLA+ spec as enumerator and exact oracle (TLC -dump) + replay into real Data',
         design='7/C15'),
+    'C10': dict(
+        text='Stats.tla: for every (shape, view, reduction axes, selection, positive filter) TLC computes the documented result '
+             'shape and, per output cell, the set of source positions that reduce into it; for every histogram configuration '
+             '(values, selection, range incl. reversed and data-coincident ends, bins, linear/log) the bin of every kept value with '
+             'integer arithmetic. The harness computes min/max/sum/mean/median/percentiles from those positions with exact rational '
+             'arithmetic and compares Data.compute_statistic for every statistic, two axis spellings and five chunk limits, and '
+             'Data.compute_histogram plain and weighted.',
+        note='Bounded: shapes (4),(2,3),(3,2),(2,2,3) (+ (2,2,2,2),(3,4) thorough), integer data with NaN/+inf/-inf, finite=True. '
+             'A sum over nothing may be NaN or 0; interior bin-edge ties may all go up or all go down. Float accuracy on non-dyadic '
+             'data, random_subset and dask are not covered.',
+        technique='TLA+ spec as enumerator and index-bookkeeping oracle + exact rational statistics + replay into real Data',
+        design='7/C10'),
 }
 
 NOT_APPLICABLE = {}
